@@ -23,10 +23,24 @@ def jobs_slow(rng, thorough):
     return [(gen.conn_slow_writes(rng), rng.randrange(10 ** 9), rng.choice([0, 0, 3])) for _ in range(n)]
 
 
+def jobs_stall(rng, thorough):
+    """third pass, monitor only: the sender is held back for tens of milliseconds at arbitrary statements of its loop (a slow logging handler, a
+    busy machine); whatever it does with clocks, two writes must still be 100 ms apart"""
+    out = []
+    for _ in range(6000 if thorough else 150):
+        spec = gen.conn_traffic(rng, max_threads=2, max_cmds=14, long_idle=rng.random() < 0.3)
+        spec["stall"] = {"prob": 0.7, "us": [5000, 30000, 70000, 150000]}
+        spec["hot"] = "_send_handler"
+        spec["hot_budget"] = rng.choice([10, 30, 60])
+        out.append((spec, rng.randrange(10 ** 9), rng.choice([0, 3])))
+    return out
+
+
 def run(ctx: core.Ctx):
     ctx.lean_stage()
     b2check.run_b2(ctx, jobs, ["C08"], label="traffic + lifecycle scenarios")
     b2check.run_b2(ctx, jobs_slow, MONS, label="slow (blocking) writes, monitor only", accept=False)
+    b2check.run_b2(ctx, jobs_stall, MONS, label="sender held back at arbitrary statements, monitor only", accept=False)
     ctx.info["rule"] = ("burst patterns from 1..4 callers, idle gaps so that probes interleave, also sessions with faults and close(); each under a seeded schedule with extra line-level preemptions; a case = one schedule; "
                         "non-trivial = distinct (spec, seed)")
     return ctx.finish()
